@@ -93,6 +93,17 @@ CHECKS["C13"] = dict(
     note="Partial: scheduler/runtime not modelled; the concurrent runs are exploration. Trusted: Lean kernel, harness, hook H2.",
 )
 
+CHECKS["C06"] = dict(
+    category="proof", design_ref="DESIGN.md §6 C06", engine="exec (real clock)",
+    technique="Lean 4 theorems on the executable keyspace model (lazy expiry check = live view; deadline laws) and generic congruence for block programs + real-clock differential batches that isolate the lazy-expiry window",
+    text="Props/C06.lean proves, for the model the driver runs, that the expiry check makes the probed key's physical entry equal to its live view and "
+         "changes nothing observable, that a key is visible exactly until its deadline, and the TTL/PERSIST/EXPIRE(NX/XX/GT/LT)/SET(KEEPTTL) laws; "
+         "Ttl.congruence/program_refines prove the general statement for block programs. The tie runs batches of hundreds of scenarios on the real clock "
+         "with deadlines placed so that for ~0.8 s only the lazy check can hide the key, probing with every reading and writing command, and compares "
+         "replies and dumps with the model given the clock readings observed around each command.",
+    note="Partial: timer goroutine scheduling is runtime; one-second granularity. Trusted: Lean kernel, harness clock readings, driver.",
+)
+
 NOT_YET = "check not built yet in this round; see DESIGN.md §8"
 NOT_APPLICABLE = {}
 
